@@ -71,7 +71,8 @@ type Provider struct {
 	CtxAware bool   `json:"ctx_aware"`
 	Form     string `json:"form"` // func | lit | value | struct
 	Struct   int    `json:"struct"`
-	VarRef   string `json:"var_ref,omitempty"` // value: kessoku.Value(<package-level variable>) declared in a tool-generated file
+	VarRef   string `json:"var_ref,omitempty"`   // value: kessoku.Value(<package-level variable>) declared in a tool-generated file
+	ErrAlias bool   `json:"err_alias,omitempty"` // the error result is spelled through `type Failure = error`
 }
 
 // Use is one provider expression inside an Inject call.
@@ -200,11 +201,20 @@ func Evaluate(sp *Spec, inj *Injector, nonce string) *Ref {
 			sup[t] = &Supplier{Kind: k, Use: u, Prov: u.Prov, OutIdx: i}
 		}
 		for _, it := range u.Bind {
-			impl := sp.Types[it].ImplBy
+			// the interface is supplied by the FIRST result of this provider that implements it; a result
+			// whose type is the interface itself comes first of all (it was registered above)
+			if s := sup[it]; s != nil && s.Use == u {
+				continue
+			}
 			idx := -1
 			for i, t := range p.Out {
-				if t == impl {
-					idx = i
+				if idx >= 0 {
+					break
+				}
+				for _, im := range sp.Types[t].Impl {
+					if im == it {
+						idx = i
+					}
 				}
 			}
 			if idx < 0 {
